@@ -1,6 +1,7 @@
 import Driver.Sexp
 import Pcore.Model.Rx
 import Pcore.Model.LatticeInst
+import Pcore.Model.LatticeStrRaw
 import Pcore.Model.TypesLat
 import Driver.Syntax
 /-!
@@ -88,6 +89,7 @@ partial def tyOf : Sexp → Option Ty
       let hi ← instantOf s2 n2
       pure (.tstamp ⟨lo, hi⟩)
   | .list [.atom "strsz", lo, hi] => (rngOf lo hi).map .strSz
+  | .list [.atom "strraw", lo, hi] => (rngOf lo hi).map mkStrRaw  -- NewStringType(Integer[lo,hi], ""): clamp, then the default test
   | .list [.atom "strval", s] => s.str?.map .strVal
   | .list (.atom "enum" :: ci :: vs) => do
       let c ← ci.bool?
